@@ -498,9 +498,249 @@ fn sweep<TC: ModelCfg>(args: &Args, rep: &Report, e_hist: u64, e_lookup: u64, re
                       "example_requirement": format!("{:?}", history_req(3, 5, 33))}));
 }
 
+// ---- presence / absence exclusivity on ARBITRARY trees. The abstract model above treats "leaf present" and
+// "leaf absent" as exclusive under one root. For canonical tries over arbitrary leaf sets that is C05; the
+// property speaks of any tree whatsoever, so here every small binary tree with arbitrary interior labels and
+// arbitrarily placed leaves is hashed the way a dishonest server would, and for every label every membership
+// proof (the leaf's actual path) and every non-membership proof (anchored at every interior node) the server
+// can read off that tree goes through the real verifiers: both kinds must never verify for the same label.
+#[derive(Clone, Debug)]
+enum ATree {
+    Leaf(usize),
+    Node(usize, Box<ATree>, Box<ATree>), // interior label index, left, right
+}
+
+fn atrees(leaves: usize, n_int: usize) -> Vec<ATree> {
+    // all binary trees with exactly `leaves` leaves (leaf ids assigned later), interior labels from 0..n_int
+    if leaves == 1 {
+        return vec![ATree::Leaf(0)];
+    }
+    let mut out = vec![];
+    for l in 1..leaves {
+        for a in atrees(l, n_int) {
+            for b in atrees(leaves - l, n_int) {
+                for i in 0..n_int {
+                    out.push(ATree::Node(i, Box::new(a.clone()), Box::new(b.clone())));
+                }
+            }
+        }
+    }
+    out
+}
+
+fn assign_leaves(t: &ATree, perm: &[usize], next: &mut usize) -> ATree {
+    match t {
+        ATree::Leaf(_) => {
+            let x = perm[*next];
+            *next += 1;
+            ATree::Leaf(x)
+        }
+        ATree::Node(i, a, b) => {
+            let a2 = assign_leaves(a, perm, next);
+            let b2 = assign_leaves(b, perm, next);
+            ATree::Node(*i, Box::new(a2), Box::new(b2))
+        }
+    }
+}
+
+fn arbitrary_tree_exclusivity<TC: ModelCfg>(args: &Args, rep: &Report) {
+    use akd::{AzksElement, AzksValue, Direction, MembershipProof, NodeLabel, NonMembershipProof, SiblingProof};
+    use akd_core::verify::base::{verify_membership_for_tests_only, verify_nonmembership_for_tests_only};
+    // leaf labels: 256-bit labels with prefixes 00, 01, 10, 11 (quick) plus 000/001-style neighbours (thorough)
+    let mk = |prefix: &[bool]| -> Bits {
+        let tail = blake3::hash(format!("akdmc c08 arbitrary {:?}", prefix).as_bytes());
+        let t = Bits::from_bytes(tail.as_bytes(), 256);
+        let mut v = prefix.to_vec();
+        v.extend_from_slice(&t.0[prefix.len()..]);
+        Bits(v)
+    };
+    let leaf_prefixes: Vec<Vec<bool>> = if args.quick() {
+        vec![vec![false, false], vec![false, true], vec![true, false], vec![true, true]]
+    } else {
+        vec![vec![false, false, false], vec![false, false, true], vec![false, true], vec![true, false], vec![true, true, false], vec![true, true, true]]
+    };
+    let leaf_labels: Vec<Bits> = leaf_prefixes.iter().map(|p| mk(p)).collect();
+    // interior label pool: every bit string of length 1..=2 (thorough: ..=3)
+    let mut pool: Vec<Bits> = vec![];
+    for len in 1..=(if args.quick() { 2 } else { 3 }) {
+        for v in 0..(1u32 << len) {
+            pool.push(Bits((0..len).map(|i| v & (1 << (len - 1 - i)) != 0).collect()));
+        }
+    }
+    let max_leaves = 3usize;
+    struct Flat {
+        label: NodeLabel,
+        value: AzksValue,
+        kids: Option<(usize, usize)>,
+        parent: Option<(usize, Direction)>,
+    }
+    let leaf_value = |i: usize| AzksValue(*blake3::hash(format!("akdmc c08 leaf value {i}").as_bytes()).as_bytes());
+    let empty = AzksElement { label: TC::empty_label(), value: TC::empty_node_hash() };
+    let mut work: Vec<(ATree, Option<bool>)> = vec![]; // (subtrees under the root, None = root has two children given by a Node with dummy label; Some(side) = single child on that side)
+    // permutations of k distinct leaf ids out of n
+    fn perms(n: usize, k: usize) -> Vec<Vec<usize>> {
+        if k == 0 {
+            return vec![vec![]];
+        }
+        let mut out = vec![];
+        for p in perms(n, k - 1) {
+            for x in 0..n {
+                if !p.contains(&x) {
+                    let mut q = p.clone();
+                    q.push(x);
+                    out.push(q);
+                }
+            }
+        }
+        out
+    }
+    for k in 1..=max_leaves {
+        for shape in atrees(k, pool.len()) {
+            for perm in perms(leaf_labels.len(), k) {
+                let t = assign_leaves(&shape, &perm, &mut 0);
+                // the root itself: either this tree's top node IS the root's pair of children (if it is a Node: its label is
+                // ignored and replaced by the root label), or the tree hangs as the root's only child on either side
+                if let ATree::Node(0, _, _) = &t {
+                    work.push((t.clone(), None));
+                }
+                work.push((t.clone(), Some(false)));
+                work.push((t.clone(), Some(true)));
+            }
+        }
+    }
+    rep.count(&format!("{}:arbitrary_trees", TC::NAME), work.len() as u64);
+    let pool = &pool;
+    let leaf_labels = &leaf_labels;
+    crate::explore::par_for(args.threads, &work, |_, (t, single)| {
+        // flatten with hashes
+        let mut flat: Vec<Flat> = vec![];
+        fn build<TC: ModelCfg>(t: &ATree, flat: &mut Vec<Flat>, pool: &[Bits], leaf_labels: &[Bits], leaf_value: &dyn Fn(usize) -> AzksValue, as_root: bool) -> usize {
+            match t {
+                ATree::Leaf(x) => {
+                    flat.push(Flat { label: bits_nl(&leaf_labels[*x]), value: leaf_value(*x), kids: None, parent: None });
+                    flat.len() - 1
+                }
+                ATree::Node(i, a, b) => {
+                    let ia = build::<TC>(a, flat, pool, leaf_labels, leaf_value, false);
+                    let ib = build::<TC>(b, flat, pool, leaf_labels, leaf_value, false);
+                    let v = TC::compute_parent_hash_from_children(&flat[ia].value, &flat[ia].label.value::<TC>(), &flat[ib].value, &flat[ib].label.value::<TC>());
+                    let label = if as_root { NodeLabel::root() } else { bits_nl(&pool[*i]) };
+                    flat.push(Flat { label, value: v, kids: Some((ia, ib)), parent: None });
+                    let me = flat.len() - 1;
+                    flat[ia].parent = Some((me, Direction::Left));
+                    flat[ib].parent = Some((me, Direction::Right));
+                    me
+                }
+            }
+        }
+        // root children as elements
+        let (root_left, root_right): (AzksElement, AzksElement);
+        let root_idx: Option<usize>;
+        let mut top_child: Option<(usize, Direction)> = None;
+        match single {
+            None => {
+                let r = build::<TC>(t, &mut flat, pool, leaf_labels, &leaf_value, true);
+                let (a, b) = flat[r].kids.unwrap();
+                root_left = AzksElement { label: flat[a].label, value: flat[a].value };
+                root_right = AzksElement { label: flat[b].label, value: flat[b].value };
+                root_idx = Some(r);
+            }
+            Some(side) => {
+                let c = build::<TC>(t, &mut flat, pool, leaf_labels, &leaf_value, false);
+                let ce = AzksElement { label: flat[c].label, value: flat[c].value };
+                if *side {
+                    root_left = empty;
+                    root_right = ce;
+                    top_child = Some((c, Direction::Right));
+                } else {
+                    root_left = ce;
+                    root_right = empty;
+                    top_child = Some((c, Direction::Left));
+                }
+                root_idx = None;
+            }
+        }
+        let root_value = match root_idx {
+            Some(r) => flat[r].value,
+            None => TC::compute_parent_hash_from_children(&root_left.value, &root_left.label.value::<TC>(), &root_right.value, &root_right.label.value::<TC>()),
+        };
+        let root_hash = TC::compute_root_hash_from_val(&root_value);
+        // membership proof of flat node i along its actual path
+        let member = |i: usize| -> MembershipProof {
+            let mut sibs = vec![];
+            let mut cur = i;
+            loop {
+                match flat[cur].parent {
+                    Some((p, dir)) => {
+                        let (a, b) = flat[p].kids.unwrap();
+                        let sib = if dir == Direction::Left { b } else { a };
+                        sibs.push(SiblingProof { label: flat[p].label, siblings: [AzksElement { label: flat[sib].label, value: flat[sib].value }], direction: dir });
+                        cur = p;
+                    }
+                    None => {
+                        if let Some((c, dir)) = top_child {
+                            if cur == c {
+                                sibs.push(SiblingProof { label: NodeLabel::root(), siblings: [empty], direction: dir });
+                            }
+                        }
+                        break;
+                    }
+                }
+            }
+            sibs.reverse();
+            MembershipProof { label: flat[i].label, hash_val: flat[i].value, sibling_proofs: sibs }
+        };
+        let root_member = MembershipProof { label: NodeLabel::root(), hash_val: root_value, sibling_proofs: vec![] };
+        for (x, xl) in leaf_labels.iter().enumerate() {
+            let xn = bits_nl(xl);
+            // every way to show x present: each leaf node carrying that label
+            let mut present = vec![];
+            for (i, f) in flat.iter().enumerate() {
+                if f.kids.is_none() && f.label == xn {
+                    rep.eval(1);
+                    if verify_membership_for_tests_only::<TC>(root_hash, &member(i)).is_ok() {
+                        present.push(i);
+                    }
+                }
+            }
+            // every way to show x absent: anchored at the root and at every interior node
+            let mut absent = vec![];
+            let mut anchors: Vec<(NodeLabel, [AzksElement; 2], MembershipProof)> = vec![(NodeLabel::root(), [root_left, root_right], root_member.clone())];
+            for (i, f) in flat.iter().enumerate() {
+                if let Some((a, b)) = f.kids {
+                    if Some(i) == root_idx {
+                        continue;
+                    }
+                    anchors.push((f.label, [AzksElement { label: flat[a].label, value: flat[a].value }, AzksElement { label: flat[b].label, value: flat[b].value }], member(i)));
+                }
+            }
+            for (al, kids, mp) in anchors {
+                rep.eval(1);
+                let p = NonMembershipProof { label: xn, longest_prefix: al, longest_prefix_children: kids, longest_prefix_membership_proof: mp };
+                if verify_nonmembership_for_tests_only::<TC>(root_hash, &p).is_ok() {
+                    absent.push(nl_bits(&al).show());
+                }
+            }
+            let _ = x;
+            if !present.is_empty() && !absent.is_empty() {
+                rep.violation(
+                    format!("{}/arbitrary_tree/presence_and_absence_of_one_label_both_verify", TC::NAME),
+                    json!({"tree": format!("{t:?}"), "root_single_child_side": format!("{single:?}"), "label": xl.show(), "absence_anchored_at": absent,
+                           "leaf_labels": leaf_labels.iter().map(|l| l.prefix(4).show()).collect::<Vec<_>>(), "interior_pool": pool.iter().map(|b| b.show()).collect::<Vec<_>>()}),
+                );
+            } else {
+                rep.distinct(format!("{}:arb:{}:{}", TC::NAME, !present.is_empty(), !absent.is_empty()));
+            }
+        }
+        rep.traces(1);
+    });
+}
+
 pub fn run(args: &Args) -> i32 {
     let rep = Report::new("C08", &args.tier, "model_checking");
     let (e_hist, e_lookup, conf_e) = if args.quick() { (64, 1024, 7) } else { (160, 4096, 10) };
+    arbitrary_tree_exclusivity::<W>(args, &rep);
+    arbitrary_tree_exclusivity::<ECfg>(args, &rep);
     conformance::<W>(args, &rep, conf_e);
     beyond_epoch::<W>(args, &rep, conf_e);
     beyond_epoch::<ECfg>(args, &rep, conf_e);
